@@ -301,7 +301,8 @@ def _run_shard(binp, lines, rundir, tag, stall, results, idx, capture_stdout=Non
     extra = {}
     stdout_chunks = []
     while skip < len(lines):
-        p = subprocess.Popen([binp, cases, outp, str(skip)], stdout=subprocess.PIPE, stderr=subprocess.DEVNULL)
+        p = subprocess.Popen([binp, cases, outp, str(skip)], stdout=subprocess.PIPE, stderr=subprocess.DEVNULL,
+                             env=(dict(os.environ, **EXTRA_ENV) if EXTRA_ENV else None))
         # read stdout in a thread so the pipe never fills
         buf = []
         t = threading.Thread(target=lambda: buf.append(p.stdout.read()))
@@ -338,6 +339,9 @@ def _run_shard(binp, lines, rundir, tag, stall, results, idx, capture_stdout=Non
     results[idx] = out[:len(lines)] + ["MISSING"] * max(0, len(lines) - len(out))
     if capture_stdout is not None:
         capture_stdout[idx] = b"".join(stdout_chunks)
+
+
+EXTRA_ENV = None   # a plugin may set this around one batch: the processes of that batch get these extra environment variables
 
 
 def run_cases(binp, lines, rundir, tag, stall=10.0, shards=None, capture_stdout=None):
